@@ -29,6 +29,13 @@ def strat_pair(draw, tier):
     m = 5 if tier == 'quick' else 7
     shape = (draw(st.integers(2, m)), draw(st.integers(2, m))) if kind == 'state' else (draw(st.integers(1, m)), draw(st.sampled_from([1, 3, 5])))
     d1 = draw(gen.state_s(space, shape=shape, floor_weight=0, depth=1))
+    big = draw(st.integers(0, 5)) == 0
+    if big:
+        # a large pair (positions past 127 / 255) tiled from the small one; the edits below address the large grid
+        small = shape
+        shape = draw(gen.big_shape_s(kind))
+        d1 = gen.grow(d1, *shape)
+        d1['agent'][0], d1['agent'][1] = draw(st.integers(0, shape[0] - 1)), draw(st.integers(0, shape[1] - 1))
     if kind == 'obs':
         d1['agent'][2] = 'F'
     edit = draw(st.sampled_from(EDITS))
@@ -52,7 +59,9 @@ def strat_pair(draw, tier):
     elif edit == 'held':
         d2['agent'][3] = draw(st.sampled_from([o for o in ex if o != 'H'] + ['_']))
     elif edit == 'independent':
-        d2 = draw(gen.state_s(space, shape=shape, floor_weight=0, depth=1))
+        d2 = draw(gen.state_s(space, shape=small if big else shape, floor_weight=0, depth=1))
+        if big:
+            d2 = gen.grow(d2, *shape)
         if kind == 'obs':
             d2['agent'][2] = 'F'
     elif edit == 'swap_cells':
@@ -110,7 +119,8 @@ def oracle_pair(case, ctx):
     if not (c == s1) or hash(c.grid) != hash(s1.grid) or hash(c.agent) != hash(s1.agent):
         ctx.fail('a copied state does not equal / hash like its original', {'kind': 'hash'})
     n = ndiff(d1, d2)
-    ctx.ev.case(case, nt=(n == 1), classes=[kind, 'edit:' + case['edit'], 'equal' if equal else ('one_component' if n == 1 else 'several_components')])
+    ctx.ev.case(case, nt=(n == 1), classes=[kind, 'edit:' + case['edit'], 'equal' if equal else ('one_component' if n == 1 else 'several_components')] + (['long_grid'] if max(shape) >= 127 else []),
+                sample=({'kind': kind, 'space': space, 'shape': list(shape), 'edit': case['edit'], 'agents': [d1['agent'], d2['agent']]} if max(shape) > 12 else None))
 
 
 # ------------------------------------------------------------------ history: hashing must not go stale (in-place door opening)
